@@ -427,7 +427,10 @@ class Program(object):
                 rest_evs = b.elems[idx + 1:]
                 # `r = helper(..)` directly followed by the branch: the local that receives the result
                 res_vars = {x.get("var") for x in rest_evs if x["k"] == "decl" and x.get("var") and ((x.get("init") or {}).get("t") or "").strip() == (call.get("t") or "").strip()}
-                if not loop and all(x["k"] in ("cast", "use") or (x["k"] == "decl" and x.get("var") in res_vars) for x in rest_evs):
+                ctext_ = (call.get("t") or "").strip()
+                if not loop and all(x["k"] in ("cast", "use") or (x["k"] == "decl" and x.get("var") in res_vars) or
+                                    (x["k"] == "cmp" and ctext_ and (((x.get("lhs") or {}).get("t") or "").strip() == ctext_ or ((x.get("rhs") or {}).get("t") or "").strip() == ctext_))
+                                    for x in rest_evs):
                     on_call = ("c:" + (call.get("callee") or "")) in (t_.get("refs") or [])
                     on_var = bool(res_vars) and any(("v:" + v_) in (t_.get("leafrefs") or t_.get("refs") or []) for v_ in res_vars)
                     rets_all_ = list(gflat.events("return")) + [r_ for r_ in gflat.events("iret") if r_.get("of") == gflat.id]
@@ -461,8 +464,14 @@ class Program(object):
                 # fields and expression text); other parameters and the helper's own locals get a suffix so that they cannot be
                 # mistaken for a caller variable of the same name
                 suffix = "@" + (gflat.base.rsplit("::", 1)[-1] if not gflat.is_lambda else "lambda%s" % gflat.line)
-                ren, txt, refmap = {}, {}, {}
+                ren, txt, refmap, constmap = {}, {}, {}, {}
                 cargs = call.get("args") or []
+                _off = len(cargs) - len(gflat.params) if gflat.is_lambda and len(cargs) == len(gflat.params) + 1 else 0
+                for i, p_ in enumerate(gflat.params):
+                    a_ = cargs[i + _off] if 0 <= i + _off < len(cargs) else {}
+                    if p_.get("name") and isinstance(a_.get("const"), (str, int)) and not isinstance(a_.get("const"), bool) and \
+                            (not isinstance(a_["const"], str) or a_["const"][:2] in ("s:", "c:", "e:")):
+                        constmap[p_["name"]] = a_["const"]
                 for i, p_ in enumerate(gflat.params):
                     pn = p_.get("name")
                     if not pn:
@@ -490,6 +499,9 @@ class Program(object):
                         if x.get("v") in refmap and (x.get("t") or "").strip() == x.get("v"):
                             return dict(refmap[x["v"]])
                         out = {}
+                        if x.get("v") in constmap and (x.get("t") or "").strip() == x.get("v") and x.get("const") is None:
+                            # a parameter that was handed a literal: it is that literal wherever it is used as such
+                            out["const"] = constmap[x["v"]]
                         for k_, v_ in x.items():
                             if k_ in ("v", "var", "root") and isinstance(v_, str) and v_ in ren:
                                 out[k_] = ren[v_][0]
@@ -501,6 +513,9 @@ class Program(object):
                                 out[k_] = tpat.sub(lambda m_: txt[m_.group(1)], v_)
                             elif k_ in ("refs", "leafrefs") and isinstance(v_, list):
                                 out[k_] = [("v:" + ren[r_[2:]][0]) if isinstance(r_, str) and r_.startswith("v:") and r_[2:] in ren else r_ for r_ in v_]
+                                # a parameter that stands for a member of the caller's object: the member is referenced too
+                                out[k_] += ["f:" + refmap[r_[2:]]["f"] for r_ in v_ if isinstance(r_, str) and r_.startswith("v:") and r_[2:] in refmap and refmap[r_[2:]].get("f")
+                                            and ("f:" + refmap[r_[2:]]["f"]) not in out[k_]]
                             else:
                                 out[k_] = subst(v_)
                         return out
